@@ -1373,7 +1373,7 @@ func failClass(msg string) string {
 	switch {
 	case strings.Contains(msg, "Attempt to round floating point"):
 		return "rounding-panic"
-	case strings.Contains(msg, "Attempt limit reached"):
+	case isGiveUp(msg):
 		return "limit-unreachable"
 	case strings.Contains(msg, "resource exhaustion"):
 		return "resource-exhaustion"
@@ -1517,7 +1517,7 @@ func (h *paramHarness) doUse(inst *paramInst, line string) {
 		c.Stat("use " + name + ": ok")
 		return
 	}
-	if strings.Contains(failure, "Attempt limit reached") {
+	if isGiveUp(failure) {
 		// D18: an accepted Maximum* limit that the data cannot meet; randomised, so not attributed to a value class
 		sig := "params:" + name + ":variable-limit-unreachable:later-failure"
 		c.Stat("use " + name + ": FAILED variable-limit-unreachable")
